@@ -43,11 +43,16 @@ func readMessage(in transport.Transport, pending *[]byte) (pt int, n int, msg []
 			return 0, 0, []byte{0, 0}, err
 		}
 
+		// a read can return data together with an error (the end of a chunked
+		// request body that arrives with the last bytes of it): the data comes first
 		size, data, err := in.ReadPacket()
+		if size > 0 {
+			*pending = append(*pending, data[:size]...)
+			continue
+		}
 		if err != nil {
 			return 0, 0, []byte{0, 0}, err
 		}
-		*pending = append(*pending, data[:size]...)
 	}
 }
 
